@@ -38,7 +38,7 @@ COMPONENTS = {
 def tier_config(tier):
     if tier == 'thorough':
         return {'runs': 16000, 'wall': 820, 'det_probe': 4}
-    return {'runs': 500, 'wall': 110, 'det_probe': 3}
+    return {'runs': 2500, 'wall': 150, 'det_probe': 3}
 
 
 def anchored_loops(g):
